@@ -52,12 +52,13 @@ const (
 	KMemWrite
 	KPoolGet
 	KPoolPut
+	KTry // TryLock / TryRLock: never blocks, observes and may change the lock state
 	nKinds
 )
 
 var kindNames = [...]string{"local", "Lock", "Unlock", "RLock", "RUnlock", "WAnnounce", "WAcquire", "WUnlock",
 	"WgAdd", "WgDone", "WgWait", "AtomLoad", "AtomAdd", "AtomRMW", "ChSend", "ChRecv", "ChClose", "Once",
-	"PipeRead", "PipeWrite", "PipeClose", "MemRead", "MemWrite", "PoolGet", "PoolPut"}
+	"PipeRead", "PipeWrite", "PipeClose", "MemRead", "MemWrite", "PoolGet", "PoolPut", "Try"}
 
 func (k Kind) String() string { return kindNames[k] }
 
@@ -117,6 +118,12 @@ func init() {
 		for _, b := range []Kind{KPoolGet, KPoolPut} {
 			setDep(a, b, true)
 		}
+	}
+	// A try-lock is always enabled, so unlike a blocking acquisition it can
+	// stand next to an unlock of the same lock, and the two do not commute
+	// (the try fails before the unlock and succeeds after it).
+	for _, b := range []Kind{KLock, KUnlock, KRLock, KRUnlock, KWAnnounce, KWAcquire, KWUnlock, KTry} {
+		setDep(KTry, b, true)
 	}
 }
 
